@@ -6916,3 +6916,36 @@ def c14_refused_attach_learns_the_stop(env):
 
 
 REGISTRY.setdefault("C14", []).append(c14_refused_attach_learns_the_stop)
+
+
+# ---- C04: the hand-written decoders of typed protocol items call nothing that can panic ------------------------
+
+
+_PANICKING_CALLS = r"Index<.*Range.*>>::index(_mut)?$|(^|::)unwrap$|(^|::)expect$|(^|::)unwrap_unchecked$|core::panicking|begin_panic|(^|::)split_at(_mut)?$|slice_index|unwrap_failed|from_utf8_unchecked|<str as Index|<\[.*\] as Index"
+
+
+def c04_typed_decoders_are_total(env):
+    o = Obligation("c04_typed_item_decoders_call_nothing_that_can_panic", "C04")
+    o.desc = "every decoding function of fe2o3-amqp-types (Deserialize::deserialize, Visitor::visit_*, TryFrom / From / FromStr conversions used while decoding: error conditions, message-ids, annotation keys, delivery states, sections ...): its MIR calls no API that panics on some input -- no byte-offset slicing of a str or slice (a peer chooses where the multi-byte characters sit), no unwrap / expect, no explicit panic -- so that a symbol, string or code taken from a peer's frame can only produce a value or an error (the arithmetic and bounds assertions of these bodies are C04's Kani harnesses and c04_*_bounds)"
+    t = env.crate("fe2o3-amqp-types")
+    sel = [(name, fn) for name, fn in t.fns.items() if re.search(r"visit_|::deserialize|::try_from|::from_str|::from$", name)]
+    o.functions = [f"{len(sel)} decoding functions of fe2o3-amqp-types"]
+    o.bounds = [f"all {len(sel)} MIR functions of fe2o3-amqp-types named deserialize / visit_* / try_from / from / from_str (of {len(t.fns)}); non-cleanup blocks"]
+    o.assumes = ["std APIs outside the listed ones do not panic on valid &str / &[u8] arguments"]
+
+    def replay(m):
+        return "typed_hostile", (lambda js: bool(js.get("panic")) or js["panics"] > 0)
+
+    bad = 0
+    for name, fn in sel:
+        hits = sorted({c for c in mir.callees(fn) if re.search(_PANICKING_CALLS, c)})
+        if hits:
+            bad += 1
+            o.prove(f"{_short_callee(name)}:calls {_short_callee(hits[0])}", [], z3.BoolVal(False), replay=replay)
+    o.prove(f"all {len(sel)} decoding functions are free of panicking calls", [], z3.BoolVal(bad == 0), replay=replay)
+    o.cover("decoding functions found", [z3.BoolVal(len(sel) > 100)])
+    return [o]
+
+
+REGISTRY.setdefault("C04", []).append(c04_typed_decoders_are_total)
+REGISTRY.setdefault("C15", []).append(lambda env: [_retagged(x, "C15", "c15_typed_item_decoders_call_nothing_that_can_panic") for x in c04_typed_decoders_are_total(env)])
